@@ -5,7 +5,8 @@
      run_sql   <- meaning of the emitted statement in SQLite: three-valued predicates, `IS`,
                   CASE, json ->> extraction, Ifnull defaults, ORDER BY with NULLs first,
                   LIMIT/OFFSET, json_object / json_group_array of the selected fields.
-   The code is modelled as it is (defects included).  No proofs here. *)
+   The code is modelled as it is at the current commit (after the fix commits e64e320, 43340e7, 936f709, 043e710,
+   601cdc3).  No proofs here. *)
 From DV Require Export QLang.
 Open Scope list_scope.
 
@@ -73,8 +74,9 @@ Definition sop_eval (o : sop) (a b : sval) : tv :=
 Inductive sx :=
 | XRaw (i : nat)          (* _json->>'$.<short name of field i>' *)
 | XOut (k : nat)          (* value->>'$.<name of the k-th selected field>' *)
-| XBool (b : bool) | XInt (z : Z) | XFlt (q : Z) | XNull
-| XSpliced (s : str)      (* '<text>' written into the statement *)
+| XBool (b : bool) | XInt (z : Z) | XNull
+| XFlt (q : Z)            (* a float written by sql_float: exponent form, always read as a REAL *)
+| XFltD (q : Z)           (* a float default in the WHEN of a filter: still written with Display *)
 | XParam (i : nat).       (* ?i *)
 
 Inductive sfilter :=
@@ -93,10 +95,11 @@ Record stmt := {
 
 (* ---------- add_param ---------- *)
 Definition pentry := (bool * str)%type.       (* Param { internal, value } *)
+(* a variable shares the slot of the same variable only, never the slot of a literal *)
 Fixpoint find_param (name : str) (vo : list pentry) (i : nat) : option nat :=
   match vo with
   | [] => None
-  | p :: t => if str_eqb name (snd p) then Some i else find_param name t (S i)
+  | p :: t => if negb (fst p) && str_eqb name (snd p) then Some i else find_param name t (S i)
   end.
 (* returns the new list and the 1-based index written as ?i *)
 Definition add_param (vo : list pentry) (value : str) (internal : bool) : list pentry * nat :=
@@ -118,8 +121,8 @@ Definition operand_sx (vo : list pentry) (o : operand) : list pentry * sx :=
   end.
 
 (* ---------- compile ---------- *)
-Definition sql_aliased_name (m : emodel) (q : query) : str :=
-  map (fun c => if N.eqb c 46 then 36%N else c) (match q_alias q with Some a => a | None => em_name m end).
+Definition sql_aliased_name (m : emodel) (q : query) : str :=      (* quoted: it may be an SQL keyword *)
+  34%N :: map (fun c => if N.eqb c 46 then 36%N else c) (match q_alias q with Some a => a | None => em_name m end) ++ [34%N].
 Definition aliased_name (m : emodel) (q : query) : str :=
   match q_alias q with Some a => a | None => em_name m end.
 
@@ -143,10 +146,12 @@ Fixpoint compile_sel (m : emodel) (vo : list pentry) (sel : list selfield) : lis
 
 Definition ref_sx (r : fref) : sx := match r with FByName i => XRaw i | FByAlias k => XOut k end.
 
-(* the WHEN operand: the default value written as text *)
-Definition default_sx (d : val) : sx :=
+(* the WHEN operand: numbers and booleans are written as text, String defaults are bound like the Ifnull
+   default of the select list *)
+Definition default_sx (vo : list pentry) (d : val) : list pentry * sx :=
   match d with
-  | VBool b => XBool b | VInt z => XInt z | VFlt x => XFlt x | VStr s => XSpliced s | VNull => XNull
+  | VBool b => (vo, XBool b) | VInt z => (vo, XInt z) | VFlt x => (vo, XFltD x) | VNull => (vo, XNull)
+  | VStr s => let '(vo', i) := add_param vo s true in (vo', XParam i)
   end.
 
 (* get_where_filters, scalar non-system field *)
@@ -164,12 +169,12 @@ Fixpoint compile_filters (m : emodel) (q : query) (vo : list pentry) (fs : list 
                   | Some i => match field_def m i with Some fd => fd_default fd | None => None end
                   | None => None
                   end in
-      let sf := match dflt with
-                | Some d => FCase (default_sx d) o (ref_sx (fl_ref f)) v
-                | None => FPlain o (ref_sx (fl_ref f)) v
-                end in
-      let '(vo2, rest) := compile_filters m q vo1 t in
-      (vo2, sf :: rest)
+      let '(vo2, sf) := match dflt with
+                        | Some d => let '(vo', dx) := default_sx vo1 d in (vo', FCase dx o (ref_sx (fl_ref f)) v)
+                        | None => (vo1, FPlain o (ref_sx (fl_ref f)) v)
+                        end in
+      let '(vo3, rest) := compile_filters m q vo2 t in
+      (vo3, sf :: rest)
   end.
 
 (* get_paging: for i in 0..len { for j in 0..i { key_j = value_j AND } key_i ope value_i } joined by OR;
@@ -206,7 +211,9 @@ Definition limit_sx (vo : list pentry) (o : operand) : list pentry * option sx :
   | OLit _ => (vo, None)
   end.
 Definition compile_limit (vo : list pentry) (q : query) : list pentry * option sx * option sx :=
-  let '(vo1, lim) := limit_sx vo (q_first q) in
+  let '(vo1, lim0) := limit_sx vo (q_first q) in
+  (* OFFSET is only valid after LIMIT: `LIMIT -1` (no limit) is written when skip is given without first *)
+  let lim := match lim0, q_skip q with None, Some _ => Some (XInt (-1)) | l, _ => l end in
   let '(vo2, off) := match q_skip q with None => (vo1, None) | Some o => limit_sx vo1 o end in
   (vo2, lim, off).
 
@@ -235,6 +242,21 @@ Definition dec_q4 (q : Z) : str :=
   let fr := match a mod 4 with 0 => [] | 1 => lit ".25" | 2 => lit ".5" | _ => lit ".75" end in
   (if Z.ltb q 0 then [45%N] else []) ++ ip ++ fr.
 
+(* f64 LowerExp ({:e}) of q/4: shortest digits = the exact decimal digits of |q|*25 / 100 *)
+Fixpoint strip_zeros (l : str) : str :=     (* on the reversed digits *)
+  match l with 48%N :: t => strip_zeros t | _ => l end.
+Definition sci_q4 (q : Z) : str :=
+  if Z.eqb q 0 then lit "0e0" else
+  let ds := dec_N (Z.to_N (Z.abs q * 25)) in
+  let e := Z.of_nat (List.length ds) - 3 in
+  let m := rev (strip_zeros (rev ds)) in
+  (if Z.ltb q 0 then [45%N] else []) ++
+  match m with
+  | [] => lit "0"
+  | [d] => [d]
+  | d :: r => d :: 46%N :: r
+  end ++ 101%N :: dec_Z e.
+
 Definition sp : str := [32%N].
 Definition field_short (m : emodel) (i : nat) : str :=
   match field_def m i with Some fd => fd_short fd | None => [] end.
@@ -244,9 +266,9 @@ Definition print_ref (m : emodel) (names : list str) (x : sx) : str :=
   | XOut k => lit "value->>'$." ++ nth k names [] ++ lit "'"
   | XBool b => if b then lit "true" else lit "false"
   | XInt z => dec_Z z
-  | XFlt q => dec_q4 q
+  | XFlt q => sci_q4 q
+  | XFltD q => dec_q4 q
   | XNull => lit "null"
-  | XSpliced s => lit "'" ++ s ++ lit "'"
   | XParam i => 63%N :: dec_N (N.of_nat i)
   end.
 Definition print_cmpop (op : cmpop) : str :=
@@ -333,10 +355,9 @@ Section Row.
     | XOut k => to_sql (nth k out VNull)
     | XBool b => SInt (if b then 1 else 0)
     | XInt z => SInt z
-    | XFlt q => SReal q     (* `2` for 2.0 is an INTEGER literal; numerically equal, and the harness reads every
-                               number of a Float field as a float, so the difference is not observable *)
+    | XFlt q => SReal q
+    | XFltD q => SReal q    (* `2` for 2.0 is an INTEGER literal: numerically equal *)
     | XNull => SNull
-    | XSpliced s => SText s
     | XParam i => nth (pred i) binds SNull
     end.
   Definition filter_eval (f : sfilter) : tv :=
@@ -382,12 +403,6 @@ Fixpoint sinsert {A} (cmp : A -> A -> comparison) (x : A) (l : list A) : list A 
   end.
 Definition ssort {A} (cmp : A -> A -> comparison) (l : list A) : list A := fold_right (sinsert cmp) [] l.
 
-Definition has_quote (s : str) : bool := existsb (N.eqb 39) s.
-Definition sx_malformed (x : sx) : bool := match x with XSpliced s => has_quote s | _ => false end.
-Definition stmt_malformed (s : stmt) : bool :=
-  existsb (fun f => match f with FCase d _ _ _ => sx_malformed d | _ => false end) (st_filters s)
-  || match st_limit s, st_offset s with None, Some _ => true | _, _ => false end.   (* OFFSET without LIMIT *)
-
 Definition lim_value (binds : list sval) (o : option sx) : option (option Z) :=
   match o with
   | None => Some None
@@ -396,7 +411,6 @@ Definition lim_value (binds : list sval) (o : option sx) : option (option Z) :=
 
 (* None = the engine reports an error *)
 Definition run_sql (rows : db) (s : stmt) (binds : list sval) : option (list (list val)) :=
-  if stmt_malformed s then None else
   match lim_value binds (st_limit s), lim_value binds (st_offset s) with
   | Some lim, Some off =>
       let sel := filter (fun r => is_true (where_eval binds r (json_object binds s r) s)) rows in
